@@ -1,6 +1,6 @@
 """C07 - per-node cash ledger; every trade booked exactly once to the security's own parent."""
 from .. import mon1
-from .. import mon2
+from .. import common, instrument as ins, mon2, w5
 from . import _w1case, _w2case
 
 ID = "C07"
@@ -14,14 +14,49 @@ ASSUMPTIONS = ["commission functions are harness-owned pure functions", "driver-
 def plan(tier):
     n = 1500 if tier == "quick" else 40000
     m = 400 if tier == "quick" else 10000
-    return [dict(unit="w1", n=n, builds=["py", "so"], case_timeout=60), dict(unit="w2", n=m, builds=["py", "so"], case_timeout=120)]
+    return [dict(unit="w1", n=n, builds=["py", "so"], case_timeout=60), dict(unit="w2", n=m, builds=["py", "so"], case_timeout=120),
+            dict(unit="w5", n=m // 2, builds=["py", "so"], case_timeout=120)]
 
 
 def floors(tier):
-    return {"min_decided": 300, "counters": {"ledger_evals": 3000, "trade_booking_evals": 1000, "fee_row_evals": 3000, "c07_ledger_evals": 10000, "c07_trade_booking_evals": 2000}, "max_undecided_frac": 0.4}
+    return {"min_decided": 300, "counters": {"ledger_evals": 3000, "trade_booking_evals": 1000, "fee_row_evals": 3000, "c07_ledger_evals": 10000, "c07_trade_booking_evals": 2000, "swept_coupons": 500}, "max_undecided_frac": 0.4}
+
+
+def run_w5(cs):
+    """fixed-income backtests: swept coupons enter the parent's cash on the next date, exactly once"""
+    ins.reset()
+    spec = w5.gen(cs)
+    run = w5.run_backtest(spec)
+    sig = w5.signature(spec)
+    if run.exc is not None:
+        if isinstance(run.exc, ZeroDivisionError) or common.is_guard_exc(run.exc):
+            return common.result(common.OOD, sig=sig, why="zero notional / sizing guard")
+        return common.result(common.INC, sig=sig, why="bt raised %s: %s" % (type(run.exc).__name__, str(run.exc)[:100]))
+    cnt, res = {}, {}
+
+    def swept(s, i):
+        if i == 0:
+            return 0.0
+        tot = 0.0
+        for c in s.children.values():
+            if hasattr(c, "_coupon_income"):
+                a = w5.accrual(spec, None, c, i - 1, c.data["position"].iloc[i - 1])
+                if a != 0:
+                    common.bump(cnt, "swept_coupons")
+                tot += a
+        return tot
+
+    out = mon2.c07_ledger(run, cnt, res, swept=swept)
+    ntr = sum(1 for e in run.events if e["k"] == "trade")
+    common.bump(cnt, "trades", ntr)
+    if out:
+        return common.result(common.VIOL, sig=sig, nt=True, cnt=cnt, res=res, mech=out[0], witness=dict(out[1], case_seed=cs, fixed_income=True, kinds=spec["kinds"]))
+    return common.result(common.HELD, sig=sig, nt=ntr >= 1, cnt=cnt, res=res, sample=w5.sample_of(spec))
 
 
 def run_case(unit, cs, idx, build, params):
+    if unit == "w5":
+        return run_w5(cs)
     if unit == "w2":
         return _w2case.run_w2(cs, [mon2.c07_ledger])
     return _w1case.run_w1(cs, [mon1.Ledger()])
